@@ -466,15 +466,15 @@ func runCheck(id string, o checkOpts) int {
 	}
 
 	// output
-	os.MkdirAll(filepath.Join(verifDir, "evidence", "replays"), 0o755)
-	old, _ := filepath.Glob(filepath.Join(verifDir, "evidence", "replays", id+"-*.json"))
+	os.MkdirAll(filepath.Join(evidenceDir(), "replays"), 0o755)
+	old, _ := filepath.Glob(filepath.Join(evidenceDir(), "replays", id+"-*.json"))
 	for _, f := range old {
 		os.Remove(f)
 	}
 	exit := 0
 	seenMsg := map[string]int{}
 	for i, w := range confirmed {
-		path := filepath.Join(verifDir, "evidence", "replays", fmt.Sprintf("%s-%d.json", id, i+1))
+		path := filepath.Join(evidenceDir(), "replays", fmt.Sprintf("%s-%d.json", id, i+1))
 		b, _ := json.MarshalIndent(w, "", " ")
 		os.WriteFile(path, b, 0o644)
 		key := w.Func + "|" + w.Args[0] + "|" + w.Msg
@@ -594,7 +594,7 @@ func runCheck(id string, o checkOpts) int {
 			"exhaustive":                         false,
 		}}
 	b, _ := json.MarshalIndent(ev, "", " ")
-	os.WriteFile(filepath.Join(verifDir, "evidence", id+".json"), b, 0o644)
+	os.WriteFile(filepath.Join(evidenceDir(), id+".json"), b, 0o644)
 	fmt.Printf("%s %s: configs=%d paths=%d merged_paths=%d queries=%d (unsat=%d sat=%d unknown=%d) solver=%.1fs wall=%.1fs inputs_covered=%s vacuous=%d unexplored=%d mismatches=%d violations=%d\n",
 		id, o.tier, len(cfgs), tot.paths, tot.mergedPaths, tot.q, tot.unsat, tot.sat, tot.unk, tot.solverS, wall, inputs.String(), tot.vacuous, tot.inconclCfgs, mismatches, len(confirmed))
 	if exit == 0 && o.strict && (tot.vacuous > 0 || tot.inconclCfgs > 0 || mismatches > 0 || tot.unk > 0) {
@@ -645,4 +645,12 @@ func topN(m map[string]int64, n int, prefer string) []string {
 		out = append(out, fmt.Sprintf("%s x%d", e.k, e.v))
 	}
 	return out
+}
+
+// evidenceDir is /verif/evidence, or $VX_EVIDENCE (scratch evaluations of seeded changes).
+func evidenceDir() string {
+	if d := os.Getenv("VX_EVIDENCE"); d != "" {
+		return d
+	}
+	return filepath.Join(verifDir, "evidence")
 }
